@@ -278,6 +278,86 @@ def install(R):
         E.assume(r >= 0)
         return r
 
+    # ------------------------------------------------------------------ sklearn base classes
+    for cls in ("BaseEstimator", "TransformerMixin", "RegressorMixin", "ClassifierMixin", "ClusterMixin"):
+        R.fns["sklearn.base.%s.__init__" % cls] = lambda E, *a, **k: None
+        R.ext_methods.setdefault("sklearn.base." + cls, {})["__init__"] = "sklearn.base.%s.__init__" % cls
+        R.ext_bases["sklearn.base." + cls] = []
+
+    # ------------------------------------------------------------------ exp / log (uninterpreted + axioms)
+    logF = z3.Function("ln", z3.RealSort(), z3.RealSort())
+    expF = z3.Function("exp", z3.RealSort(), z3.RealSort())
+    R.logF, R.expF = logF, expF
+
+    def explog_axioms(E):
+        if E.ps.get("explog"):
+            return
+        E.ps["explog"] = True
+        x = z3.Real("xq")
+        E.axiom(z3.ForAll([x], logF(expF(x)) == x, patterns=[expF(x)]))
+        E.axiom(z3.ForAll([x], z3.Implies(x > 0, expF(logF(x)) == x), patterns=[logF(x)]))
+        E.axiom(z3.ForAll([x], expF(x) > 0, patterns=[expF(x)]))
+        E.used_lemmas.add("exp_log_inverse: ln(exp x)=x, exp(ln x)=x for x>0, exp x>0")
+
+    def ufunc(name, fn):
+        def f(E, a, *rest, **kw):
+            from .npmodel import arr_map
+            explog_axioms(E)
+            if isinstance(a, NdArr):
+                return arr_map(E, lambda v: fn(v if z3.is_real(v) else z3.ToReal(v)), [a], "real")
+            if is_num_like(a):
+                v = z(a)
+                if z3.is_int(v):
+                    v = z3.ToReal(v)
+                return fn(v)
+            raise Unsupported("numpy.%s(%r)" % (name, a))
+        R.fns["numpy." + name] = f
+    ufunc("log", lambda v: logF(v))
+    ufunc("exp", lambda v: expF(v))
+    ufunc("log1p", lambda v: logF(1 + v))
+    ufunc("expm1", lambda v: expF(v) - 1)
+
+    @reg("numpy.issubdtype")
+    def _issubdtype(E, dt, kind):
+        from .npmodel import DType
+        n = dt.name if isinstance(dt, DType) else str(dt)
+        k = kind.name.split(".")[-1] if isinstance(kind, ExternFn) else getattr(kind, "name", str(kind))
+        if k in ("floating", "float64", "float32"):
+            return n.startswith("float")
+        if k in ("integer", "int64", "int32"):
+            return n.startswith("int")
+        raise Unsupported("issubdtype(%s,%s)" % (n, k))
+
+    def _permutation(tag):
+        def f(E, x, *a, **kw):
+            """numpy.random.permutation(x): a bijection of the entries of x (concrete length only)"""
+            if isinstance(x, NdArr) and x.ndim == 1 and isinstance(x.shape[0], int):
+                m = x.shape[0]
+                out = NdArr.fresh("perm", (m,), x.kind)
+                idx = [E.int("pi") for _ in range(m)]
+                for v in idx:
+                    E.assume(z3.And(v >= 0, v < m))
+                if m > 1:
+                    E.assume(z3.Distinct(*idx))
+                fs = x.snapshot()
+                for i in range(m):
+                    out.set((i,), fs.get(idx[i]))
+                out.cell.writes = 0
+                E.trace.append(dict(op="permutation", rng=tag, result=out))
+                return out
+            raise Unsupported("permutation of %r" % (x,))
+        return f
+    R.fns["numpy.random.permutation"] = _permutation("Global")
+
+    @reg("numpy.random.RandomState")
+    def _randomstate(E, seed=None):
+        o = Obj("RandomState", tag="RandomState")
+        o.fields["seed"] = seed
+        o.fields["$rng"] = "Entropy" if seed is None else "Seeded"
+        E.trace.append(dict(op="RandomState", seed=seed, rng=o.fields["$rng"], result=o))
+        return o
+    R.methods[("RandomState", "permutation")] = lambda E, recv, args, kwargs, node: _permutation(recv.fields["$rng"])(E, *args, **kwargs)
+
     # ------------------------------------------------------------------ joblib (A8)
     def _parallel(E, *a, **kw):
         def runner(E, calls):
